@@ -80,6 +80,7 @@ def expected_positions(cases):
 
 
 ALL_PROPS = ["C%02d" % i for i in range(1, 21)]
+MAX_SHARD_BYTES = 12 * 1024 * 1024
 
 
 def validate_traces(cases, props=None, module="TracePdesy", cfgfile="TracePdesy.cfg", shards=16,
@@ -88,18 +89,34 @@ def validate_traces(cases, props=None, module="TracePdesy", cfgfile="TracePdesy.
     t0 = time.time()
     if not cases:
         return {"fails": [], "states": 0, "transitions": 0, "positions": 0, "wall": 0.0}
-    shards = max(1, min(shards, len(cases)))
-    parts = [cases[i::shards] for i in range(shards)]
+    # shards are bounded by serialized size as well as by count: one TLC run deserialises its whole
+    # input file, and a file of >100 MB exhausted a 2 GB heap (thorough C18, 37k positions per shard)
+    blobs = [json.dumps(c) for c in cases]
+    total = sum(len(b) for b in blobs)
+    nparts = max(1, min(len(cases), max(shards, -(-total // MAX_SHARD_BYTES))))
+    order = sorted(range(len(cases)), key=lambda k: -len(blobs[k]))
+    parts, pblobs, load = [[] for _ in range(nparts)], [[] for _ in range(nparts)], [0] * nparts
+    for k in order:                                   # longest-first greedy packing
+        j = load.index(min(load))
+        parts[j].append(cases[k])
+        pblobs[j].append(blobs[k])
+        load[j] += len(blobs[k])
     wd = workdir("trace")
     fails, states, gen = [], 0, 0
+    head = json.dumps(list(props if props is not None else ALL_PROPS))
 
     def one(i):
         sd = os.path.join(wd, "s%d" % i)
         os.makedirs(sd)
         tf = os.path.join(sd, "trace.json")
         with open(tf, "w") as f:
-            json.dump({"props": list(props if props is not None else ALL_PROPS), "cases": parts[i]}, f)
+            f.write('{"props": %s, "cases": [%s]}' % (head, ", ".join(pblobs[i])))
+        pblobs[i] = None
         rc, out = run_tlc(module, cfgfile, sd, env={"TRACE_FILE": tf}, workers=1, timeout=timeout)
+        try:
+            os.remove(tf)
+        except OSError:
+            pass
         st = parse_states(out)
         exp = expected_positions(parts[i])
         if st is None or "Model checking completed" not in out or st[1] != exp:
@@ -111,8 +128,8 @@ def validate_traces(cases, props=None, module="TracePdesy", cfgfile="TracePdesy.
         return parse_fails(out), st
 
     try:
-        with ThreadPoolExecutor(max_workers=shards) as ex:
-            for fl, st in ex.map(one, range(shards)):
+        with ThreadPoolExecutor(max_workers=min(16, nparts)) as ex:
+            for fl, st in ex.map(one, range(nparts)):
                 fails.extend(fl)
                 gen += st[0]
                 states += st[1]
